@@ -6,6 +6,7 @@ import (
 	"math/rand"
 	"net/http"
 	"net/url"
+	"path/filepath"
 	"sort"
 	"strings"
 	"sync"
@@ -25,10 +26,14 @@ func c05build(ops []*Sx) (*flamego.Flame, bool) {
 	f.Use(func(c flamego.Context) { c.Map(c05tok(c.Request().Header.Get("X-Tok"))) })
 	f.Use(func(c flamego.Context) { c.Next() })
 	f.Use(func(c flamego.Context) {})
-	f.Use(flamego.Renderer())         // every other route answers through the request's Render
-	f.Use(func(c flamego.Context) {}) // five Use calls: length 5, capacity 8 - spare capacity again
-	f.Map(&svcA{id: 77})              // resolved by handlers through the interface i1
-	f.NotFound(func(c flamego.Context, t c05tok) string { return "(notfound) tok=" + string(t) })
+	f.Use(flamego.Renderer()) // every other route answers through the request's Render
+	c16setup()                // files served with ETags next to the routes: first requests arrive concurrently
+	f.Use(flamego.Static(flamego.StaticOptions{Directory: filepath.Join(c16root, "pub"), Prefix: "c05static", SetETag: true}))
+	f.Use(func(c flamego.Context) {})                                      // five Use calls: length 5, capacity 8 - spare capacity again
+	f.Map(&svcA{id: 77})                                                   // resolved by handlers through the interface i1
+	f.HandlerWrapper(func(h flamego.Handler) flamego.Handler { return h }) // applied once, when handlers are registered
+	// two not-found handlers, the first of the plain func(Context) kind the framework wraps into a fast invoker
+	f.NotFound(func(c flamego.Context) {}, func(c flamego.Context, t c05tok) string { return "(notfound) tok=" + string(t) })
 	var routes []*flamego.Route
 	ok := true
 	idx := 0
@@ -135,6 +140,11 @@ func runC05(in *Sx) *Sx {
 	if !ok {
 		return T("obs", T("invalid"))
 	}
+	// files of the static middleware, requested alongside (isolation only: serial answer = concurrent answer)
+	for _, p := range []string{"/c05static/a.txt", "/c05static/sub/b.txt", "/c05static/x", "/c05static/noindex/c.txt", "/c05static/sub/", "/c05static/a.txt"} {
+		reqs = append(reqs, T("req", X("GET"), X(p), T("hdrs")))
+	}
+	nroute := len(reqs) - 6
 	serial := make([]string, len(reqs))
 	for i, q := range reqs {
 		serial[i] = c05serve(fa, q, fmt.Sprintf("t%d", i))
@@ -163,6 +173,15 @@ func runC05(in *Sx) *Sx {
 	}
 	same := T("same")
 	for i := range reqs {
+		if conc[i] != serial[i] && same.Tag() == "same" {
+			same = T("diff", I(i), X(serial[i]), X(conc[i]))
+		}
+		if i >= nroute {
+			if !strings.HasPrefix(serial[i], "FILE") && same.Tag() == "same" {
+				same = T("diff", I(i), X(serial[i]), X("a file of the static directory was expected"))
+			}
+			continue
+		}
 		// serial answers, parsed back into the router harness' form
 		body := serial[i]
 		tokOK := strings.Contains(body, fmt.Sprintf(" tok=t%d", i))
@@ -179,9 +198,6 @@ func runC05(in *Sx) *Sx {
 			res = T("badscope", res)
 		}
 		outs = append(outs, res)
-		if conc[i] != serial[i] && same.Tag() == "same" {
-			same = T("diff", I(i), X(serial[i]), X(conc[i]))
-		}
 	}
 	// keep the ops of the case aligned with the outs: setup first, then requests
 	return T("obs", T("outs", outs...), T("conc", same))
